@@ -293,6 +293,16 @@ func (v *vSim) exec(e vSimEvent) {
 		l.Names = v.live()
 		v.s.Emit(l)
 		v.api(nd, "Leave", func() error { return m.Leave(tmo) })
+	case "depart":
+		// the process of a member that left gracefully goes away
+		if nd == nil || !nd.up || !nd.left {
+			return
+		}
+		v.s.Emit(v.line("Depart", e.Node))
+		v.net.crash(e.Node)
+		nd.up = false
+		v.s.unregister(nd.m)
+		_ = nd.m.Shutdown()
 	case "update":
 		if nd == nil || !nd.up || nd.left {
 			return
